@@ -72,6 +72,37 @@ theorem C01_copy_loop_preserves {σ : Type} (r : Reader σ) (hl : r.Lawful) (buf
         omega
       rw [ih _ hlen, hc]
 
+/-- the copy loop in debug mode (`SOCKETACE_PIPE_DEBUG=1`): the destination is `io.MultiWriter(w, logWriter)`, so every
+    chunk goes to `w` first and then to the log writer; when that one reports a count other than the chunk's length the
+    copy ends with io.ErrShortWrite after the chunk it has just forwarded.  `logCount` = what logWriter.Write reports. -/
+def Reader.copyDbg {σ : Type} (r : Reader σ) (logCount : List Nat → Nat) (bufSize : Nat) : Nat → σ → List (List Nat)
+  | 0, _ => []
+  | fuel + 1, s =>
+      let x := r.read s bufSize
+      if x.1 = [] then []
+      else if logCount x.1 = x.1.length then x.1 :: r.copyDbg logCount bufSize fuel x.2
+      else [x.1]
+
+/-- **debug_copy**: with a log writer that reports every chunk as fully written the debug-mode copy loop writes exactly
+    what the plain one writes (hence everything `C01_copy_loop_preserves` says holds for it). -/
+theorem C01_debug_copy_is_copy {σ : Type} (r : Reader σ) (logCount : List Nat → Nat) (hl : ∀ c, logCount c = c.length)
+    (bufSize fuel : Nat) (s : σ) : r.copyDbg logCount bufSize fuel s = r.copy bufSize fuel s := by
+  induction fuel generalizing s with
+  | zero => rfl
+  | succ k ih =>
+    simp only [Reader.copyDbg, Reader.copy, hl, ↓reduceIte]
+    split
+    · rfl
+    · rw [ih]
+
+/-- streams/pipes.go logWriter.Write returns `len(p), nil` (regenerated) -/
+theorem C01_log_writer_reports_all : Gen.logWriterReturnsLen = true := by decide
+
+/-- **witness_short_log**: a log writer that reports at most 2 bytes cuts the stream after the first longer chunk. -/
+theorem C01_witness_short_log :
+    (srcReader.copyDbg (fun c => min c.length 2) 8 10 [[1, 2, 3], [4, 5]]).flatten = [1, 2, 3] ∧
+    (srcReader.copy 8 10 [[1, 2, 3], [4, 5]]).flatten = [1, 2, 3, 4, 5] := by decide
+
 /-- **stack_preserves (one layer)**: putting the handshake's buffered reader on top of a lawful
     layer gives a lawful layer — whatever the buffer size and the caller's read sizes. -/
 theorem C01_buffered_lawful {σ : Type} (r : Reader σ) (hl : r.Lawful) (size : Nat) (hs : 0 < size) :
@@ -371,3 +402,6 @@ end SA.Framing
 #print axioms SA.Framing.C01_mux_retry_delivers
 #print axioms SA.Framing.C01_witness_mux_no_retry
 #print axioms SA.Framing.C01_mux_read_is_the_data_path
+#print axioms SA.Framing.C01_debug_copy_is_copy
+#print axioms SA.Framing.C01_log_writer_reports_all
+#print axioms SA.Framing.C01_witness_short_log
